@@ -419,7 +419,8 @@ func checkC10on(c CaseC10, subject map[string]interface{}, sep, path string, sp 
 	}
 	var newVal interface{} = sentinel
 	if c.NewKind != "scalar" {
-		newVal = map[string]interface{}{"__new": sentinel}
+		// a container value, with the empty and null members that a JSON value may have
+		newVal = map[string]interface{}{"__new": sentinel, "e": []interface{}{}, "m": map[string]interface{}{}, "n": nil, "l": []interface{}{[]interface{}{}, "x"}}
 	}
 	before := copyMap(start)
 	ps := refUpdateSets(copyMap(start), c.Key, c.Steps, c.Conds, info)
